@@ -131,7 +131,9 @@ Print Assumptions C14_ruleset_meets_spec.
 (** histories of CreateRule calls on ONE factory instance (2, 5, any number of rules, in one rule set or over
     reloads): whatever was created before and after, the result for a rule is the specification's — a function of
     that rule's definition, the default rule and the mode alone; nothing of an earlier rule (say, the pipelines
-    created for an equal `execute` list) can show in a later one *)
+    created for an equal `execute` list) can show in a later one — by construction of the model
+    ([create_history] is a map: no state between calls); that the CODE has no such memory is what the
+    `history` stream checks, not this theorem *)
 Theorem C14_history_meets_spec : forall proxy def pre r post,
   scoped_rule r = true ->
   nth_error (create_history proxy def (pre ++ r :: post)) (length pre) =
@@ -163,13 +165,38 @@ Theorem C14_trace_failure : forall holds e p a sc,
 Proof. exact run_mid_failure. Qed.
 Print Assumptions C14_trace_failure.
 
-(** the rules the factory creates have stages of the right kinds (hypothesis of
-    the theorem above) *)
+(** the finalization stage fails: every applicable authorizer/contextualizer has run, the pipeline stops at the
+    first applicable finalizer, then the first applicable error handler *)
+Theorem C14_trace_fin_failure : forall holds e p a sc,
+  pr_fail p = FFin -> stage_kinds e -> f_sc e = a :: sc ->
+  run holds e p =
+  match find (applicable holds p) (f_fi e) with
+  | Some h => let '(te, handled) := first_applicable holds p (f_eh e) in
+              (negb handled, [tm a] ++ map tm (filter (applicable holds p) (f_sh e)) ++ [tm h] ++ te)
+  | None => (false, tm a :: map tm (filter (applicable holds p) (f_sh e)))
+  end.
+Proof. exact run_fin_failure. Qed.
+Print Assumptions C14_trace_fin_failure.
+
+(** every authenticator fails with an argument error and the error handlers decline (the probe that shows whole
+    stages): all authenticators in order, then every applicable error handler in order; the error is returned *)
+Theorem C14_trace_authn_failure : forall holds e p,
+  pr_fail p = FAuthn -> stage_kinds e ->
+  run holds e p = (true, map tm (f_sc e) ++ map tm (filter (applicable holds p) (f_eh e))).
+Proof. exact run_authn_failure. Qed.
+Print Assumptions C14_trace_authn_failure.
+
+(** the rules the factory creates have stages of the right kinds (hypothesis of the three failure theorems
+    above): for a rule given that the default rule has, and for every default rule the specification accepts *)
 Theorem C14_stage_kinds : forall proxy def r e,
   match def with Some d => stage_kinds d | None => True end ->
   spec_rule proxy def r = Some e -> stage_kinds e.
 Proof. exact spec_rule_kinds. Qed.
 Print Assumptions C14_stage_kinds.
+
+Theorem C14_default_stage_kinds : forall d e, spec_default d = Some e -> stage_kinds e.
+Proof. exact spec_default_kinds. Qed.
+Print Assumptions C14_default_stage_kinds.
 
 (** T_main of the verdict protocol, for every input and without any guard: an
     implementation that shows what the model shows satisfies the property's
@@ -178,6 +205,12 @@ Theorem C14_corr_implies_prop : forall holds proxy d r,
   prop_rule (observe holds) robs_eqb proxy d r (map_load (observe holds) (load proxy d r)) = true.
 Proof. intros holds proxy d r. apply corr_implies_prop. apply robs_eqb_iff. Qed.
 Print Assumptions C14_corr_implies_prop.
+
+(** the same for the `realfactory` stream's observation (mechanism ids per stage) *)
+Theorem C14_corr_implies_prop_ids : forall proxy d r,
+  prop_rule observe_ids iobs_eqb proxy d r (map_load observe_ids (load proxy d r)) = true.
+Proof. intros proxy d r. apply corr_implies_prop. apply iobs_eqb_iff. Qed.
+Print Assumptions C14_corr_implies_prop_ids.
 
 Theorem C14_corr_implies_prop_set : forall holds proxy d k sd,
   prop_set holds proxy d k sd (run_set holds proxy d k sd) = true.
@@ -226,6 +259,7 @@ Proof.
   split; [reflexivity|]. split; [vm_compute; reflexivity|].
   intros e H. vm_compute in H. inversion H; subst e. split; vm_compute; reflexivity.
 Qed.
+Print Assumptions C14_nonvacuous.
 
 (** History: finding C14-F1 (repaired by fix: commit 97aaffa).  The factory of
     the pinned commit ignored a rule's own backtracking_enabled when no default
